@@ -6,6 +6,14 @@ import esl_common as E
 import vf, json
 
 
+def big_boundaries(c, stats, base):
+    """Streams whose first list ends exactly at 64 KiB / 1 MiB."""
+    lines = E.enumerate_cases(c, "BigInit", "q", name="esl-power-of-two-boundaries")
+    res, deaths, items = E.execute(c, lines, stats, base=base)
+    E.report_disagreements(c, res, deaths, items)
+    return len(lines)
+
+
 def run(c):
     if not c.quick:
         E.liveness(c, "LiveNear", "q")
@@ -22,6 +30,10 @@ def run(c):
         samples += [lookup(base), lookup(base + n // 2)]
         total_cases += n
         base += n
+    nbig = big_boundaries(c, stats, base)
+    total_cases += nbig
+    base += nbig
+    c.cov["power_of_two_boundary_cases"] = nbig
     for l in samples[:4]:
         if l:
             c.sample(json.loads(l))
